@@ -14,3 +14,51 @@ Print Assumptions C11_count_is_users.
 Theorem C11_late_release_absorbed : forall e s, memb s (subs e) = false -> step e (Unsub s) = e.
 Proof. exact unsub_nonmember_noop. Qed.
 Print Assumptions C11_late_release_absorbed.
+
+(* Integrated model Comp/Core.v (run in lock-step with the real gateway on every check), every sequence of stimuli and
+   scheduler grants, a client closing its connection at any moment: after the connection's disposal task has run (its own
+   messaging subscription is given up) no frame is sent to it and no access request is made on its behalf, whatever was
+   queued or outstanding for it; and once nothing is left to do none of its Subscription objects is a subscriber of the
+   cached resource any more (theorem C08_core_nothing_left_behind, restated here for a closed connection). *)
+From Coq Require Import List.
+From RG Require Comp.Conv Comp.Core Proofs.CoreProofsABC Proofs.CoreProofsDEF.
+Theorem C11_core_nothing_after_close :
+  forall (val upd : Type) (app : upd -> val -> val) (norm : upd -> val -> option upd) (d : val),
+  (forall u v, norm u v = None -> app u v = v) ->
+  (forall u v u', norm u v = Some u' -> app u' v = app u v) ->
+  forall t ops c pre post,
+  snd (Core.exec val upd app norm d t ops) = pre ++ Core.OConnUnsub val upd c :: post ->
+  forall o, In o post -> Core.for_conn val upd c o = false.
+Proof. exact CoreProofsDEF.core_nothing_after_close. Qed.
+Print Assumptions C11_core_nothing_after_close.
+
+Theorem C11_core_released_after_close :
+  forall (val upd : Type) (app : upd -> val -> val) (norm : upd -> val -> option upd) (d : val),
+  (forall u v, norm u v = None -> app u v = v) ->
+  (forall u v u', norm u v = Some u' -> app u' v = app u v) ->
+  forall t ops i,
+  let s := fst (Core.exec val upd app norm d t ops) in
+  Core.quiescent val upd s -> (i < Core.next val upd s)%nat ->
+  Core.cur (Core.conns val upd s (Core.owner (Core.insts val upd s i))) <> Some i ->
+  Conv.mem i (Conv.rs_subs val upd (Core.cv val upd s)) = false /\
+  Conv.loaded val upd (Conv.subs val upd (Core.cv val upd s) i) = false /\
+  Conv.eq val upd (Conv.subs val upd (Core.cv val upd s) i) = nil.
+Proof. exact CoreProofsDEF.core_cleanup. Qed.
+Print Assumptions C11_core_released_after_close.
+
+(* Single-resource core (Comp/Conv.v), every interleaving: once the queues are drained and the get request answered, a
+   subscription that was disposed - its request failed, access was denied, it was unsubscribed or its connection closed, at
+   whatever moment: before it was registered, while loading, with events queued - is no longer listed by the cache as a
+   subscriber, is not loaded and holds no events. *)
+From RG Require Comp.Conv.
+Theorem C11_disposed_subscription_released :
+  forall (val upd : Type) (app : upd -> val -> val) (norm : upd -> val -> option upd) (d : val),
+  (forall u v, norm u v = None -> app u v = v) ->
+  (forall u v u', norm u v = Some u' -> app u' v = app u v) ->
+  forall t acts s,
+  let σ := Conv.run val upd app norm d t acts in
+  Conv.quiescent val upd σ -> Conv.gone val upd (Conv.subs val upd σ s) = true ->
+  Conv.mem s (Conv.rs_subs val upd σ) = false /\ Conv.loaded val upd (Conv.subs val upd σ s) = false /\
+  Conv.eq val upd (Conv.subs val upd σ s) = nil.
+Proof. exact Conv.disposed_released. Qed.
+Print Assumptions C11_disposed_subscription_released.
